@@ -57,6 +57,7 @@ type World struct {
 	revOpt      bool
 	srvOpts     []jsonrpc.ServerOption
 	prevRelease map[int]chan struct{}
+	causeCh     chan struct{} // see ArmCause
 }
 
 type API struct {
@@ -325,11 +326,10 @@ func (h *H) enter(ctx context.Context, tok int, method string) (*Plan, func(res 
 func (h *H) body(ctx context.Context, tok int, method string) (int, error) {
 	p, leave := h.enter(ctx, tok, method)
 	if p.WaitCtx {
-		select {
-		case <-ctx.Done():
+		switch h.w.waitCtx(ctx, p.release, patience(2*time.Second)) {
+		case "ctx":
 			time.Sleep(p.ReactDelay)
-		case <-p.release:
-		case <-time.After(patience(2 * time.Second)):
+		case "missing":
 			h.w.Rec.Emit("CtxMissing", "call", tok)
 		}
 	} else if p.Gated {
@@ -363,11 +363,10 @@ func (h *H) Notify(ctx context.Context, tok int)                       { h.body(
 func (h *H) Big(ctx context.Context, tok int, size int) (string, error) {
 	p, leave := h.enter(ctx, tok, "Big")
 	if p.WaitCtx {
-		select {
-		case <-ctx.Done():
+		switch h.w.waitCtx(ctx, p.release, patience(2*time.Second)) {
+		case "ctx":
 			time.Sleep(p.ReactDelay)
-		case <-p.release:
-		case <-time.After(patience(2 * time.Second)):
+		case "missing":
 			h.w.Rec.Emit("CtxMissing", "call", tok)
 		}
 	} else if p.Gated {
@@ -487,10 +486,9 @@ func (h *H) CallBackMany(ctx context.Context, tok int, n int, pad int) (string, 
 			defer wg.Done()
 			res := make(chan error, 1)
 			go func() { res <- f() }()
-			select {
-			case err := <-res:
+			if err, ok := h.w.waitErr(res, patience(3*time.Second)); ok {
 				h.w.Rec.Emit("RevCallEnd", "call", tok, "failed", err != nil)
-			case <-time.After(patience(3 * time.Second)):
+			} else {
 				h.w.Rec.Emit("RevCallEnd", "call", tok, "failed", false, "blocked", true)
 			}
 		}()
@@ -555,11 +553,10 @@ func (h *H) CallBack(ctx context.Context, tok int) (string, error) {
 func (h *H) CallBackAfter(ctx context.Context, tok int) (string, error) {
 	p, leave := h.enter(ctx, tok, "CallBackAfter")
 	rc, ok := jsonrpc.ExtractReverseClient[RevAPI](ctx)
-	select {
-	case <-ctx.Done():
+	switch h.w.waitCtx(ctx, p.release, patience(2*time.Second)) {
+	case "ctx":
 		time.Sleep(p.ReactDelay)
-	case <-p.release:
-	case <-time.After(patience(2 * time.Second)):
+	case "missing":
 		h.w.Rec.Emit("CtxMissing", "call", tok)
 	}
 	if ok {
@@ -643,12 +640,12 @@ func (h *H) Sub(ctx context.Context, tok int, n int) (<-chan [2]int, error) {
 			}
 		}
 		if p.NoClose {
-			select {
-			case <-ctx.Done():
+			switch w.waitCtx(ctx, p.release, patience(time.Duration(p.NoCloseMs+2000)*time.Millisecond)) {
+			case "ctx":
 				ctxSeen()
-			case <-p.release:
+			case "release":
 				w.Rec.Emit("HandlerChanClose", "call", tok)
-			case <-time.After(patience(time.Duration(p.NoCloseMs+2000) * time.Millisecond)):
+			case "missing":
 				if p.WaitCtx {
 					w.Rec.Emit("CtxMissing", "call", tok)
 				}
@@ -1082,6 +1079,77 @@ func (w *World) Consume(tok int, ch <-chan [2]int, gate <-chan struct{}, done ch
 // stuckScenarios counts scenarios that ended with outstanding calls; once a tree has shown that several times the
 // remaining scenarios do not spend the full grace periods again (the verdict is already decided, keep the run short).
 var stuckScenarios int
+
+// ArmCause says that the scenario will announce the moment at which it brings about the end its handlers are waiting for
+// (MarkCause).  The handlers' patience for the cancellation of their contexts then runs from that moment and not from the
+// moment they started waiting: setting the scene (a blocked writer, late subscriptions) can take seconds on a loaded machine,
+// and a handler that gives up before anything has happened says nothing about the library.
+func (w *World) ArmCause() {
+	w.mu.Lock()
+	w.causeCh = make(chan struct{})
+	w.mu.Unlock()
+}
+
+func (w *World) MarkCause() {
+	w.mu.Lock()
+	if w.causeCh != nil {
+		select {
+		case <-w.causeCh:
+		default:
+			close(w.causeCh)
+		}
+	}
+	w.mu.Unlock()
+}
+
+// waitCtx is how a handler waits for its context: "ctx" when it was cancelled, "release" when the scenario let the handler
+// go, "missing" when neither happened within d (counted from the announced cause in an armed scenario).  No goroutine is
+// started here: it would inherit the handler's labels and be counted as one the connection left behind.
+func (w *World) waitCtx(ctx context.Context, release <-chan struct{}, d time.Duration) string {
+	w.mu.Lock()
+	c := w.causeCh
+	w.mu.Unlock()
+	if c != nil {
+		select {
+		case <-ctx.Done():
+			return "ctx"
+		case <-release:
+			return "release"
+		case <-c:
+		case <-time.After(30 * time.Second):
+		}
+	}
+	select {
+	case <-ctx.Done():
+		return "ctx"
+	case <-release:
+		return "release"
+	case <-time.After(d):
+		return "missing"
+	}
+}
+
+// waitErr waits for the outcome of a call that must not block once the scenario's cause has happened: ok is false when
+// it is still outstanding d after the cause (d after now in a scenario that is not armed).
+func (w *World) waitErr(res <-chan error, d time.Duration) (error, bool) {
+	w.mu.Lock()
+	c := w.causeCh
+	w.mu.Unlock()
+	if c != nil {
+		select {
+		case err := <-res:
+			return err, true
+		case <-c:
+		case <-time.After(30 * time.Second):
+		}
+	}
+	select {
+	case err := <-res:
+		return err, true
+	case <-time.After(d):
+		return nil, false
+	}
+}
 
 func patience(d time.Duration) time.Duration {
 	if stuckScenarios >= 3 {
